@@ -70,6 +70,7 @@ type FuncSpec struct {
 type AtAssert struct {
 	Callee string
 	Clause *Clause
+	Assume bool // "at <callee> assume": an explicit, listed assumption made at the call site
 }
 
 type SpecFunc struct {
@@ -289,6 +290,12 @@ func (sp *Specs) LoadSpecFile(path string) error {
 		case "at":
 			// at <callee key> assert [label] expr
 			k := strings.Index(rest, " assert ")
+			isAssume := false
+			if k < 0 {
+				k = strings.Index(rest, " assume ")
+				isAssume = true
+				sp.Scan["assume"]++
+			}
 			if cur == nil || k < 0 {
 				return fmt.Errorf("%s:%d: bad at-assert", path, ln)
 			}
@@ -296,7 +303,7 @@ func (sp *Specs) LoadSpecFile(path string) error {
 			if err != nil {
 				return err
 			}
-			cur.AtAsserts = append(cur.AtAsserts, &AtAssert{Callee: strings.TrimSpace(rest[:k]), Clause: c})
+			cur.AtAsserts = append(cur.AtAsserts, &AtAssert{Callee: strings.TrimSpace(rest[:k]), Clause: c, Assume: isAssume})
 			lastExpr = &c.Expr
 		case "assume":
 			if cur == nil {
